@@ -1118,7 +1118,14 @@ def check_value(ctx, M, c, seg, cmd, idx, segs, concrete, out):
     if errs:
         amb = [e for e in errs if e.startswith("Ambiguous symbol")]
         had_model = any(h == "get-model" for (h, _) in c.conc)
-        if amb and had_model:
+        ambname = re.match(r"Ambiguous symbol: `(.*)'$", amb[0]).group(1) if amb and re.match(r"Ambiguous symbol: `(.*)'$", amb[0]) else None
+        if ambname is not None and ambname.startswith("@") and ambname in c.ren.fun.values():
+            # not a formal parameter: the user's symbol @d<k> / @<k> is a homonym of an abstract value the logic creates itself
+            # (the default value of an uninterpreted sort exists from declare-sort on), with or without a get-model before
+            sample("get-value:abstract-prefix-user-symbol", dict(case="get-value over a user symbol @x", script=concrete, output=out))
+            ctx.violation("get-value:abstract-prefix-user-symbol", "get-value is refused with %r: the declared symbol %r is called like an abstract value "
+                          "the solver creates itself (another sort), OpenSMT accepted its declaration" % (amb[0], ambname), replay)
+        elif amb and had_model:
             sample("model:formal-arg-clash", dict(case="get-value after get-model", script=concrete, output=out))
             ctx.violation("model:formal-arg-clash", "after get-model a later get-value is refused with %r: get-model created a formal parameter that carries the name "
                           "of a declared symbol (different sort), the symbol became ambiguous" % amb[0], replay)
